@@ -1,6 +1,7 @@
 import SJ.Proofs.Tables
 import SJ.Proofs.Facts
 import SJ.Proofs.SerdeRT
+import SJ.Proofs.Framing
 /-
 C11 — Serialize/Deserialize round-trips every tape in every mode.
 -/
@@ -50,5 +51,32 @@ theorem C11_dedup_sound (hash : Bytes → Nat) (s : SerState) (sb : Bytes) :
 theorem C11_msg_bound (pj : PJ) (hash : Bytes → Nat) (M : Nat) (h1 : pj.msg.size ≤ M) (h2 : pj.strings.size ≤ M)
     (sec : Sections) (h : serialize pj hash = .ok sec) : sec.msg.size ≤ pj.tape.size * M :=
   SerdeRT.serialize_msg_bound pj hash M h1 h2 sec h
+
+open SJ.Layout in
+/-- **Round trip through the bytes.** For every tape denoting `d`, every hash function, every codec and every prior
+    destination tape: `Serialize`'s output in the uncompressed mode (`encodeSections blkRaw`: version byte, total
+    size, tape size, empty strings section, then message / tags / values each as size + block) is read back by
+    `Deserialize` to a tape that denotes the same `d`. -/
+theorem C11_roundtrip_bytes (codec : Codec) (pj : PJ) (d : List JVal) (hash : Bytes → Nat) (hwf : WF pj d)
+    (hsz : pj.tape.size < 2^56) (hb : pj.tape.size * max pj.msg.size pj.strings.size < 2^55) (prior : Array UInt64) :
+    ∃ sec pj', serialize pj hash = .ok sec ∧ deserialize codec (encodeSections blkRaw sec) prior = .ok pj' ∧ WF pj' d :=
+  Framing.serialize_deserialize codec pj d hash hwf hsz hb prior
+
+/-- The same for compressed blocks, for any block writer/codec pair meeting the contract
+    "what the codec is handed back decodes to what the writer was given" (S2, zstd: by contract). -/
+theorem C11_framing_any_codec {blk : Bytes → Bytes} {codec : Codec} (hb : Framing.BlkOK blk codec) (sec : Sections)
+    (hf : Framing.FrameOK blk sec) (prior : Array UInt64) :
+    deserialize codec (encodeSections blk sec) prior =
+      deserializeSections { sec with strings := #[] } (prior.extract 0 sec.tapeSize ++ Array.replicate (sec.tapeSize - prior.size) 0) :=
+  Framing.deserialize_encode_blk hb sec hf prior
+
+/-- `binary.PutUvarint` / `binary.ReadUvarint` are inverse on every 64-bit value, at any position. -/
+theorem C11_uvarint (x : Nat) (hx : x < 2^64) (pre post : Bytes) :
+    readUvarint (pre ++ (putUvarint x).toArray ++ post) pre.size = some (UInt64.ofNat x, pre.size + (putUvarint x).length) :=
+  Framing.readUvarint_putUvarint x hx pre post
+
+/-- the differential check that re-encodes the implementation's bytes is justified: encode then split is the identity -/
+theorem C11_sections_of_encode (sec : Sections) (hs : sec.strings = #[]) (hf : Framing.FrameOK blkRaw sec) :
+    sectionsOfRaw (encodeSections blkRaw sec) = some sec := Framing.sectionsOfRaw_encode sec hs hf
 
 end SJ.Properties.C11
